@@ -132,7 +132,16 @@ def while_invariant(inv, variant=None, havoc=None):
                 path.oblige("loop%d_inv_preserved:%s" % (ordinal, nm), g, where="line %d" % s.lineno, kind="inv")
             if variant:
                 v1 = variant(interp, env)
-                path.oblige("loop%d_variant_decreases" % ordinal, z3.And(v0 >= 0, v1 < v0), kind="inv")
+                if isinstance(v0, tuple):
+                    # lexicographic, each component bounded below by 0 and decreasing by at least 1
+                    goal = z3.BoolVal(False)
+                    eq = z3.BoolVal(True)
+                    for a0, a1 in zip(v0, v1):
+                        goal = z3.Or(goal, z3.And(eq, a0 >= 0, a1 <= a0 - 1))
+                        eq = z3.And(eq, a1 == a0)
+                    path.oblige("loop%d_variant_decreases" % ordinal, goal, kind="inv")
+                else:
+                    path.oblige("loop%d_variant_decreases" % ordinal, z3.And(v0 >= 0, v1 < v0), kind="inv")
             raise PathEnd("loop body verified (cut)")
         interp.exec_block(s.orelse, env)
         return None
